@@ -36,7 +36,7 @@ class RowTracker:
     row-scatter stores they receive.  Anything outside that fragment is an unrecognised idiom (AnalysisError)."""
 
     ALLOC = ("np.zeros", "np.empty", "np.full", "np.ones", "numpy.zeros", "numpy.empty", "numpy.full", "numpy.ones",
-             "np.zeros_like", "numpy.zeros_like")
+             "np.zeros_like", "numpy.zeros_like", "np.full_like", "np.empty_like", "np.ones_like")
 
     def __init__(self, target_prefix: str | None, where: str = "reinsert_atoms"):
         self.where = where
@@ -83,8 +83,26 @@ class RowTracker:
         return None
 
     def _alloc(self, call: ast.Call):
-        o = self._alloc0(call)
         fn = norm(call.func)
+        if fn.endswith("_like") and call.args and isinstance(call.args[0], ast.Name) and call.args[0].id in self.objs:
+            # a new array shaped like a tracked one (`buf = np.full_like(buf, 0.0)`, the rebinding form of `buf.fill(0.0)`)
+            src = self.objs[call.args[0].id]
+            o = Obj(src.kind if src.kind == "array" else "array", src.length, src.trailing, src.dtype, call)
+            o.shape = src.shape
+            kws = {k.arg: k.value for k in call.keywords}
+            if fn.endswith("full_like"):
+                fv = call.args[1] if len(call.args) > 1 else kws.get("fill_value")
+                o.fill = norm(self.subst(fv)) if fv is not None else None
+                if o.fill in ("0.0", "0"):
+                    o.fill = "0"
+            elif fn.endswith("zeros_like"):
+                o.fill = "0"
+            elif fn.endswith("ones_like"):
+                o.fill = "1"
+            else:
+                o.fill = None
+            return o
+        o = self._alloc0(call)
         o.shape = self.subst(call.args[0]) if call.args else None
         if fn.endswith("zeros_like"):
             o.like, o.fill = o.shape, "0"
@@ -111,8 +129,13 @@ class RowTracker:
         dtype = self.subst(dtype) if dtype is not None else None
         if fn.endswith(".ones") and dtype is not None and norm(dtype) in ("bool", "np.bool_", "numpy.bool_"):
             return Obj("mask", shape, None, dtype, call)
-        if fn.endswith(".full") and len(call.args) > 1 and norm(call.args[1]) == "True" and dtype is not None and norm(dtype) in ("bool", "np.bool_"):
-            return Obj("mask", shape, None, dtype, call)
+        fillv = call.args[1] if len(call.args) > 1 else kws.get("fill_value")
+        if fn.endswith(".full") and fillv is not None and norm(fillv) == "True" and (dtype is None or norm(dtype) in ("bool", "np.bool_", "numpy.bool_")):
+            return Obj("mask", shape, None, dtype, call)  # np.full(n, True) is a boolean array whatever dtype is (not) given
+        if fn.endswith(".full") and fillv is not None and norm(fillv) == "False" and dtype is None:
+            o = Obj("mask", shape, None, dtype, call)
+            o.inverted = True
+            return o
         # the dual idiom: an all-False mask in which the selected rows are set True (`m = zeros(n, bool); m[idx] = True`);
         # `Z[~m]` then addresses what `Z[ones-mask]` addresses, and `Z[m]` what `Z[~ones-mask]` does
         if (fn.endswith(".zeros") or (fn.endswith(".full") and len(call.args) > 1 and norm(call.args[1]) == "False")) and dtype is not None and norm(dtype) in ("bool", "np.bool_", "numpy.bool_"):
@@ -179,6 +202,27 @@ class RowTracker:
                 self.objs[tgt.id] = self.objs[value.id]
                 self.env.pop(tgt.id, None)
             else:
+                selfref = tgt.id in self.objs and any(isinstance(n, ast.Name) and n.id == tgt.id for n in ast.walk(value))
+                if selfref and isinstance(value, ast.BinOp) and isinstance(value.left, ast.Name) and value.left.id == tgt.id \
+                        and norm(self.subst(value.right)) not in getattr(self, "sum_operands", ()):
+                    # `buf = buf <op> e` — the rebinding form of an in-place `buf <op>= e`: an update of the tracked array
+                    o = self.objs[tgt.id]
+                    o.stores.append((("aug", "<whole>", type(value.op).__name__), norm(self.subst(value.right)), lineno))
+                    return
+                if selfref:
+                    # `buf = buf + x` (an in-place `buf += x` on a private array, rewritten by the normaliser): the tracked
+                    # array keeps living under an internal name, the local now names the sum
+                    keep = f"{tgt.id}__buf"
+                    self.objs[keep] = self.objs[tgt.id]
+                    import copy as _copy
+
+                    class _R(ast.NodeTransformer):
+                        def visit_Name(self, node):
+                            if node.id == tgt.id and isinstance(node.ctx, ast.Load):
+                                return ast.copy_location(ast.Name(id=keep, ctx=ast.Load()), node)
+                            return node
+
+                    value = _R().visit(_copy.deepcopy(value))
                 self.env[tgt.id] = self.subst(value)
                 self.objs.pop(tgt.id, None)
             return
